@@ -118,6 +118,50 @@ pub fn generate(seed: u64, thorough: bool, sink: &mut Sink) -> Vec<String> {
     for s in ["t := ((1, 2), (3, 4))\nt.1.2", "r := {a: [1 2 3], b: 2}\nr.a[2]", "x := [1 2 3; 4 5 6]\nx[2,:][3]", "a := {b: {c: 1}}\na.b.c", "t := |a<f64> b<f64>| 1 2 | 3 4 |\nt.a[2]"] { v.push(s.to_string()); }
     push("chained-subscripts", v, sink);
   }
+  // kind annotations of every form (scalar, option, matrix with fixed / open / no dimensions, set with and without a
+  // size, map, record, table, tuple, function, atom, empty, any, nested) in a typed definition, a kind definition, a
+  // function signature, a record field and a table header
+  {
+    let mut rng = Rng::new(seed ^ 0x61AD);
+    fn kind(rng: &mut Rng, depth: u32) -> String {
+      let scalars = ["u8", "u16", "u32", "u64", "u128", "i8", "i16", "i32", "i64", "i128", "f32", "f64", "string", "bool", "r64", "c64", "index"];
+      let leaf = |rng: &mut Rng| -> String { (*rng.pick(&scalars)).to_string() };
+      if depth == 0 { return leaf(rng); }
+      let dim = |rng: &mut Rng| -> String { match rng.below(3) { 0 => "_".to_string(), _ => format!("{}", 1 + rng.below(9)) } };
+      match rng.below(16) {
+        0 | 1 => leaf(rng),
+        2 => format!("{}?", leaf(rng)),
+        3 => format!("[{}]", kind(rng, depth - 1)),
+        4 => format!("[{}]:{},{}", leaf(rng), dim(rng), dim(rng)),
+        5 => format!("[{}]:{}", leaf(rng), dim(rng)),
+        6 => format!("{{{}}}", kind(rng, depth - 1)),
+        7 => format!("{{{}}}:{}", leaf(rng), dim(rng)),
+        8 => format!("{{{}:{}}}", leaf(rng), kind(rng, depth - 1)),
+        9 => format!("{{a<{}>,b<{}>}}", kind(rng, depth - 1), leaf(rng)),
+        10 => format!("|a<{}> b<{}>|", leaf(rng), leaf(rng)),
+        11 => format!("|a<{}> b<{}>|:{}", leaf(rng), leaf(rng), dim(rng)),
+        12 => format!("({}, {})", kind(rng, depth - 1), leaf(rng)),
+        13 => format!("({})=({})", leaf(rng), leaf(rng)),
+        14 => (*rng.pick(&[":red", "_", "*", ":ok"])).to_string(),
+        _ => format!("({}, {}, {})", leaf(rng), kind(rng, depth - 1), leaf(rng)),
+      }
+    }
+    let mut v: Vec<String> = vec![];
+    for _ in 0..per * 2 {
+      let k = kind(&mut rng, 2);
+      match rng.below(6) {
+        0 | 1 => v.push(format!("x<{}> := 1", k)),
+        2 => v.push(format!("<t> := <{}>", k)),
+        3 => v.push(format!("f(a<{}>) => <{}>\n  └ a => a.\nf(1)", k, kind(&mut rng, 1))),
+        4 => v.push(format!("x := {{a<{}>: 1, b: 2}}", k)),
+        _ => v.push(format!("~x<{}> := 1\nx = 2", k)),
+      }
+    }
+    for k in ["{u8}:_", "{u8}:3", "{u8}", "[f64]:_,3", "[f64]:2,_", "[u8]:3", "[u8]", "u8?", "{string:u8}", "{a<u8>,b<string>}", "|a<u8> b<f64>|", "|a<u8> b<f64>|:3", "(u8, string)", "(u8)=(u8)", ":red", "_", "*", "[[u8]]", "{{u8}}", "[u8?]"] {
+      v.push(format!("x<{}> := 1", k)); v.push(format!("<t> := <{}>", k));
+    }
+    push("kind-annotations", v, sink);
+  }
   // string literals: the body is a sequence of graphemes of known class; a quote in the body is always
   // preceded by a backslash, a backslash may stand before anything (an escape where one is defined)
   {
